@@ -300,6 +300,20 @@ func checkExportImport(n *world.Node, spec world.GenesisSpec, keys map[string]wo
 			return failf("queries-identical", "query-differs", "query %s answers differently on the re-imported chain", k)
 		}
 	}
+	// derived indices and queues: the raw module stores of the re-imported chain equal the running chain's,
+	// except for what the export deliberately does not carry (see the notes in the rule)
+	d1 := n.DumpStores(n.CommittedCtx())
+	d2 := m.DumpStores(m.FinalizeCtx())
+	for _, store := range world.ModuleStores {
+		a, b := filterStore(store, d1[store]), filterStore(store, d2[store])
+		diff := (world.StoreDump{store: a}).Diff(world.StoreDump{store: b})
+		if len(diff) > 0 {
+			if len(diff) > 4 {
+				diff = diff[:4]
+			}
+			return failf("derived-indices", "store-differs-after-import/"+store+"/"+storeDiffClass(store, diff[0]), "module store %s of the re-imported chain differs from the running chain: %v", store, diff)
+		}
+	}
 	// continuation: the new chain produces blocks
 	if continuation > 0 {
 		ch, err := world.NewChain(spec2, resp.Validators)
@@ -416,4 +430,39 @@ func TestC18_ExportImport(t *testing.T) {
 		Gen: genExportCase, Run: runExportCase,
 		Rule: "a history in the locking world (validators pending/active/downgraded/tombstoned/inactive incl. zero-power ones, pending and matured unlocks, claims queued), the relayer world (pending, on-boarding and off-boarding voters, consumed sequences) or the withdrawal world (pending/canceling/processing/paid/cancelled withdrawals, processing batches with fee-bumped candidates, refund/paid queues, voted hashes not yet handed over) is stopped at a generated block; ExportAppStateAndValidators E1; a fresh application is initialised with E1's state, validators, height and the consensus parameters (must succeed; the SDK compares requested and returned validators); the module manager's export of the just-initialised state must equal E1 module by module (null/[]/absent normalised); every module query over every key named in E1 answers identically; and, reported as a separate clause, the new chain must run 3 blocks from the exported height with the empty last commit CometBFT supplies and with validator updates acceptable to a CometBFT set seeded from InitChain; non-trivial = the exported state shows >= 3 of the listed interesting features; evaluations count history blocks",
 	})
+}
+
+// filterStore drops entries that an export/import legitimately does not reproduce byte for byte:
+//   - locking power-ranking entries with power 0 (never eligible; the running chain keeps or drops them depending on the path),
+//   - the relayer's on/off-boarding queue item (rebuilt from the voter records; its order is not exported).
+func filterStore(store string, m map[string]string) map[string]string {
+	out := map[string]string{}
+	for k, v := range m {
+		if store == "locking" && len(k) >= 9 && k[0] == 2 && k[1:9] == string(make([]byte, 8)) {
+			continue
+		}
+		if store == "relayer" && len(k) >= 1 && k[0] == 5 {
+			continue
+		}
+		out[k] = v
+	}
+	return out
+}
+
+func storeDiffClass(store, first string) string {
+	if store == "locking" {
+		// "locking/<hexkey>: ..." - the first key byte is the collection prefix
+		i := len("locking/")
+		if len(first) > i+2 {
+			switch first[i : i+2] {
+			case "01":
+				return "locking-index"
+			case "02":
+				return "power-ranking"
+			case "03":
+				return "validator-set"
+			}
+		}
+	}
+	return "other"
 }
